@@ -200,6 +200,47 @@ func runC11(c *Ctx) {
 				return false
 			})
 			c.Check(K(f.Name, "removes only an invalidated sender"), del.Pos(), g, "the creator removes the sender it registered only when prepOrInvalidate reports that it invalidated it", "delete(strmap, p) is reachable when the sender was not invalidated (the context ended while waiting for its lock)")
+			// ... and only while the map still holds that very sender: after a disconnect another
+			// request may have registered a healthy successor, which must stay
+			// some definition of the variable (through copies, e.g. the results of a helper read
+			// in place) is the given kind of expression
+			var hasDef func(e ast.Expr, is func(ast.Expr) bool, depth int) bool
+			hasDef = func(e ast.Expr, is func(ast.Expr) bool, depth int) bool {
+				o := eng.ObjOf(info, e)
+				if o == nil || depth > 3 {
+					return false
+				}
+				for _, d := range f.AssignedFrom(o) {
+					d = eng.Unparen(defOrNil(d))
+					if d == nil {
+						continue
+					}
+					if is(d) {
+						return true
+					}
+					if id, isID := d.(*ast.Ident); isID && eng.ObjOf(info, id) != o && hasDef(id, is, depth+1) {
+						return true
+					}
+				}
+				return false
+			}
+			isCur := func(e ast.Expr) bool {
+				return hasDef(e, func(d ast.Expr) bool {
+					ix, isIx := d.(*ast.IndexExpr)
+					return isIx && eng.IsField(info, ix.X, msiT+".strmap")
+				}, 0)
+			}
+			isMine := func(e ast.Expr) bool {
+				return hasDef(e, func(d ast.Expr) bool {
+					u, isU := d.(*ast.UnaryExpr)
+					return isU && len(lits) == 1 && eng.Unparen(u.X) == ast.Expr(lits[0])
+				}, 0)
+			}
+			own, _ := cf.Guarded(cf.LocOf(del), func(ft eng.Fact) bool {
+				x, y, equal, isEq := ft.EqFact()
+				return isEq && equal && ((isCur(x) && isMine(y)) || (isCur(y) && isMine(x)))
+			})
+			c.Check(K(f.Name, "removes only its own sender"), del.Pos(), own, "the creator removes the map entry only when it still is the sender it registered (a successor registered after a disconnect stays)", "delete(strmap, p) is not behind `ms == <current entry>`")
 		}
 		{
 			pi := c.Fn(pmsFn + "prepOrInvalidate")
